@@ -1,127 +1,238 @@
 #!/venv/bin/python
 """Writes spec/Channel.tla (PlusCal) and runs the translator.  The flush loop of
-HTTPChannel._flush_some occurs at four call sites with thread-specific locals;
-generating the text keeps the four copies identical."""
+HTTPChannel._flush_some occurs at six call sites and the watermark wait at two,
+each with thread-specific locals; generating the text keeps the copies identical."""
 import os
 import subprocess
+import sys
 
 V = os.path.dirname(os.path.dirname(os.path.abspath(__file__)))
 
+IOV = dict(outlen="outlen", sent="sent", tmp="tmp", flushed="ioflushed", exc="ioexc")
+WV = dict(outlen="woutlen", sent="wsent", tmp="wtmp", flushed="wflushed", exc="wexc")
 
-def flush_loop(sfx, v, who, after, indent="        "):
-    """_flush_some body: v = dict(outlen, chunk, sent, tmp, flushed); `after` = label to continue at"""
-    t = """{L}_fs_loop:
+
+def flush_loop(sfx, v, who, after, style):
+    """HTTPChannel._flush_some: `after` = label to continue at.  Sets v[flushed] (something was sent) and v[exc]
+    (send raised an OSError).  style: "io" = called through _flush_some_if_lockable by the I/O thread with
+    do_close=True (a disconnect errno tears the channel down from inside send; an exception first releases the
+    lock, then _flush_exception sets will_close); "worker" = called through _flush_exception(do_close=False)
+    with the lock held (will_close is set at once); "sc" = called directly by send_continue (do_close=True)."""
+    if style == "io":
+        hard = """{exc} := TRUE; goto {after};"""
+        disc = """{sent} := 0; closeRet := "{sfx}"; goto handle_close_acq_outbuf_lock;"""
+    elif style == "scio":
+        hard = """crashed := crashed \\cup {{{who}}}; goto {after};"""      # not modelled: the exception leaves received()
+        disc = """{sent} := 0; closeRet := "{sfx}"; goto handle_close_acq_outbuf_lock;"""
+    elif style == "scw":
+        hard = """crashed := crashed \\cup {{{who}}}; goto {after};"""      # not modelled: the exception leaves service()
+        disc = """crashed := crashed \\cup {{{who}}}; goto {after};"""      # handle_close on a worker thread: never in the model
+    else:
+        hard = """{exc} := TRUE;
+flush_exception_wr_will_close_{sfx}:
+            willClose := TRUE; decided := TRUE;
+            goto {after};"""
+        disc = """{sent} := 0; goto {after};"""
+    t = """{sfx}_fs_top:
+        {outlen} := BLen(obufs[1]);
+{sfx}_fs_loop:
         while ({outlen} > 0) {{
 send_send_sock_{sfx}:
-          {sent} := IF room = Unlimited THEN Len({chunk}) ELSE Min2(Len({chunk}), room);
-          wire := wire \\o SubSeq({chunk}, 1, {sent});
-          room := IF room = Unlimited THEN Unlimited ELSE room - {sent};
-          if ({sent} = 0) {{ blocked := blocked + 1; goto {after}; }}
-          else if ({sent} > Len(obufs[1])) {{ crashed := crashed \\cup {{{who}}}; goto {after}; }}
-          else {{ obufs[1] := SubSeq(obufs[1], {sent} + 1, Len(obufs[1])); {outlen} := {outlen} - {sent}; {flushed} := TRUE; }};
+          if (sfaults # <<>> /\\ Head(sfaults) = "hard") {{
+            sfaults := Tail(sfaults);
+            """ + hard + """
+          }} else if ((sfaults # <<>> /\\ Head(sfaults) = "disc") \\/ peerGone) {{
+            sfaults := IF sfaults # <<>> THEN Tail(sfaults) ELSE sfaults;
+            """ + disc + """
+          }} else {{
+            with (c = IF ostr[1] THEN obufs[1] ELSE Take(obufs[1], Min2({outlen}, cfg.sndbuf)), n = IF room = Unlimited THEN BLen(c) ELSE Min2(BLen(c), room)) {{
+              sfaults := IF sfaults # <<>> THEN Tail(sfaults) ELSE sfaults;
+              {sent} := n;
+              wire := Join(wire, Take(c, n));
+              room := IF room = Unlimited THEN Unlimited ELSE room - n;
+              if (n = 0) {{ blocked := blocked + 1; goto {after}; }}
+              else if (n > BLen(obufs[1])) {{ crashed := crashed \\cup {{{who}}}; goto {after}; }}
+              else {{ ostr[1] := ostr[1] /\\ (n = BLen(obufs[1])); obufs[1] := Drop(obufs[1], n); {outlen} := {outlen} - n; {flushed} := TRUE; }};
+            }};
+          }};
 flush_some_rd_total_outbufs_len_{sfx}:
           {tmp} := total;
 flush_some_wr_total_outbufs_len_{sfx}:
           total := {tmp} - {sent};
-          if ({outlen} > 0) {{ {chunk} := obufs[1]; }}
-          else if (Len(obufs) > 1) {{ obufs := Tail(obufs); {outlen} := Len(obufs[1]); {chunk} := obufs[1]; }};
         }};
+{sfx}_fs_pop:
+        if (Len(obufs) > 1) {{ obufs := Tail(obufs); ostr := Tail(ostr); goto {sfx}_fs_top; }};
 """
-    return t.format(L=sfx, sfx=sfx, who=who, after=after, **v)
-
-
-def start_flush(v):
-    return """with (ob = IF Len(obufs[1]) = 0 /\\ Len(obufs) > 1 THEN Tail(obufs) ELSE obufs) {{
-          obufs := ob; {outlen} := Len(ob[1]); {chunk} := ob[1];
-        }};""".format(**v)
-
-
-IOV = dict(outlen="outlen", chunk="chunk", sent="sent", tmp="tmp", flushed="ioflushed")
-WV = dict(outlen="woutlen", chunk="wchunk", sent="wsent", tmp="wtmp", flushed="wflushed")
+    return t.format(sfx=sfx, who=who, after=after, **v)
 
 
 def send_continue(sfx, v, who):
     """HTTPChannel.send_continue(): called with requests_lock held"""
+    loop = flush_loop("sc" + sfx, v, who, "sc_after_" + sfx, "sc" + sfx)
     return """send_continue_acq_outbuf_lock_{sfx}:
         await outOwner \\in {{"free", {who}}}; outOwner := {who}; outCount := outCount + 1;
 send_continue_rd_total_outbufs_len_{sfx}:
-        obufs[Len(obufs)] := Append(obufs[Len(obufs)], Unit(cur, 0));
-        produced := Append(produced, Unit(cur, 0));
+        obufs[Len(obufs)] := Append(obufs[Len(obufs)], Seg(cur, 0, cfg.interim));
+        produced := Append(produced, Seg(cur, 0, cfg.interim)); cnt := cnt + cfg.interim;
         {tmp} := total;
 send_continue_wr_total_outbufs_len_{sfx}:
-        total := {tmp} + 1; sentContinue := TRUE; curExpect := FALSE; {flushed} := FALSE;
-        {start}
+        total := {tmp} + cfg.interim; sentContinue := TRUE; curExpect := FALSE; {flushed} := FALSE; {exc} := FALSE;
+        maxTotal := IF total > maxTotal THEN total ELSE maxTotal;
 {loop}sc_after_{sfx}:
         skip;
 send_continue_rel_outbuf_lock_{sfx}:
         outCount := outCount - 1; if (outCount = 0) {{ outOwner := "free"; }};
-""".format(sfx=sfx, who=who, start=start_flush(v), loop=flush_loop("sc" + sfx, v, who, "sc_after_" + sfx), **v)
+""".format(sfx=sfx, who=who, loop=loop, **v)
+
+
+def watermark(sfx):
+    """HTTPChannel._flush_outbufs_below_high_watermark(), called by a worker from write_soon (lock held) and
+    from service (lock not held).  threading.Condition.wait releases the lock completely and queues the
+    thread; it runs again once it has been notified and the lock is free."""
+    loop = flush_loop("hw" + sfx, WV, "self", "hw_after_" + sfx, "worker")
+    return """flush_outbufs_below_high_watermark_rd_total_outbufs_len_{sfx}:
+      if (total > cfg.hwm) {{
+flush_outbufs_below_high_watermark_acq_outbuf_lock_{sfx}:
+        await outOwner \\in {{"free", self}}; outOwner := self; outCount := outCount + 1; wflushed := FALSE; wexc := FALSE;
+{loop}hw_after_{sfx}:
+        if (wexc) {{
+          \\* the flush failed: wake the I/O thread and wait for it to decide (it closes the channel and notifies)
+physical_pull_pull_trigger_hx{sfx}:
+          trig := trig + 1;
+physical_pull_pulled_trigger_hx{sfx}:
+          saved := outCount; outCount := 0; outOwner := "free"; waiters := Append(waiters, self);
+flush_outbufs_below_high_watermark_wait_outbuf_lock_x{sfx}:
+          await (\\A i \\in 1..Len(waiters) : waiters[i] # self) /\\ outOwner = "free";
+          outOwner := self; outCount := saved;
+          goto flush_outbufs_below_high_watermark_rel_outbuf_lock_{sfx};
+        }};
+flush_outbufs_below_high_watermark_rd_connected_{sfx}:
+        if (~connected) {{ goto flush_outbufs_below_high_watermark_rel_outbuf_lock_{sfx}; }};
+flush_outbufs_below_high_watermark_rd_total_outbufs_len_{sfx}_2:
+        if (total <= cfg.hwm) {{ goto flush_outbufs_below_high_watermark_rel_outbuf_lock_{sfx}; }};
+physical_pull_pull_trigger_hw{sfx}:
+        trig := trig + 1;
+physical_pull_pulled_trigger_hw{sfx}:
+        saved := outCount; outCount := 0; outOwner := "free"; waiters := Append(waiters, self);
+flush_outbufs_below_high_watermark_wait_outbuf_lock_{sfx}:
+        await (\\A i \\in 1..Len(waiters) : waiters[i] # self) /\\ outOwner = "free";
+        outOwner := self; outCount := saved;
+        goto flush_outbufs_below_high_watermark_rd_connected_{sfx};
+flush_outbufs_below_high_watermark_rel_outbuf_lock_{sfx}:
+        outCount := outCount - 1; if (outCount = 0) {{ outOwner := "free"; }};
+      }};
+""".format(sfx=sfx, loop=loop)
 
 
 HEADER = r'''------------------------------ MODULE Channel ------------------------------
 (* One connection of waitress at the code's atomicity: the I/O thread          *)
 (* (wasyncore.poll + HTTPChannel.readable/writable/handle_read/handle_write/    *)
 (* received/send_continue/handle_close), the worker threads (HTTPChannel.       *)
-(* service, write_soon, _flush_some, send_continue), the trigger and the task   *)
-(* hand-off, with one step per visible operation: every lock operation, every   *)
-(* socket / pipe / select call and every access to requests,                    *)
-(* total_outbufs_len, will_close, close_when_flushed and connected (the         *)
-(* attributes that are touched outside their lock).                             *)
+(* service, write_soon, _flush_some, _flush_outbufs_below_high_watermark,       *)
+(* send_continue), the trigger and the task hand-off, with one step per         *)
+(* visible operation: every lock / condition operation, every socket / pipe /   *)
+(* select call and every access to requests, total_outbufs_len, will_close,     *)
+(* close_when_flushed and connected (the attributes that are touched outside    *)
+(* their lock).  A step is the visible operation together with the code up to   *)
+(* the next one.                                                                *)
 (* Visible labels are named <function>_<kind>_<object>[_suffix]; the binding    *)
 (* layer records the same triple for every visible operation of the real code   *)
 (* (spec/Trace_Channel.tla).  Labels without such a triple are control points.  *)
 (*                                                                             *)
-(* Scenario constants: Sends = what the client sends: a sequence of reads, each *)
-(* a sequence of pieces [rid, close, what] with what = "full" (a complete       *)
-(* request), "head" (the header block of a request with Expect: 100-continue    *)
-(* and a body) or "body" (the rest of it); ClientOps = what else the client     *)
-(* does (reads n units or everything (n = -1), possibly only after the socket was *)
-(* found full `after` times / waits for the interim response); Lookahead, SendBytes, workers.       *)
-(* A response is RespUnits write_soon calls; the interim response is unit 0.    *)
-(* Not modelled: the watermark wait, socket faults, poll()-based readwrite.     *)
-(* This file is generated by tools/gen_channel.py (the four copies of the       *)
-(* flush loop) and then translated by pcal.                                     *)
+(* Output is counted in bytes: the execution of request rid is the sequence     *)
+(* cfg.writes[rid] of write_soon sizes (0 = the application iterator is         *)
+(* advanced, a visible step without effect on the channel), buffers and the wire are sequences of segments             *)
+(* <<rid, k, n>> (n bytes of the k-th write of response rid; k = 0 is the       *)
+(* interim response), so partial sends, send_bytes and the high watermark mean  *)
+(* what they mean in the code and total_outbufs_len can be compared exactly.    *)
+(*                                                                             *)
+(* The scenario is the record cfg (a variable that never changes, so that one   *)
+(* TLC run can validate traces of many scenarios): sends = what the client      *)
+(* sends: a sequence of reads, each a sequence of pieces [rid, close, what]     *)
+(* with what = "full" (a complete request), "head" (the header block of a       *)
+(* request with Expect: 100-continue and a body) or "body" (the rest of it);    *)
+(* ops = what the client does: [op, n, after] with op = "send", "read" (takes   *)
+(* n bytes or everything (n = -1), possibly only once the socket was found full *)
+(* `after` times), "await100" (waits for the n-th interim response), "close"    *)
+(* (goes away); sfaults = the outcome of the successive send calls ("ok",       *)
+(* "disc" = a disconnect errno, "hard" = an errno reported to the caller);      *)
+(* writes, interim, lookahead, sendbytes, hwm, sndbuf, room.                    *)
+(* Not modelled: recv faults, poll()-based readwrite, file-wrapper buffers,     *)
+(* buffer overflow to disk, errors inside send_continue's flush.                *)
+(* This file is generated by tools/gen_channel.py (the copies of the flush      *)
+(* loop and of the watermark wait) and then translated by pcal.                 *)
 EXTENDS Integers, Sequences, FiniteSets, TLC
 
-CONSTANTS Sends, Lookahead, SendBytes, HWM, Workers, RoomInit, ClientOps, RespUnits
+CONSTANTS CfgSet, Workers
 
 Min2(a, b) == IF a < b THEN a ELSE b
 NoReq == [rid |-> 0, close |-> FALSE, what |-> "full"]
-RECURSIVE FlatSends(_)
-FlatSends(i) == IF i > Len(Sends) THEN <<>> ELSE Sends[i] \o FlatSends(i + 1)
-(* requests in the order in which they become complete *)
-ReqSeq == SelectSeq(FlatSends(1), LAMBDA p : p.what \in {"full", "body"})
-Unit(r, k) == <<r, k>>
-RespOf(r) == [k \in 1..RespUnits |-> Unit(r, k)]
-RECURSIVE Concat(_, _)
-Concat(seq, i) == IF i > Len(seq) THEN <<>> ELSE RespOf(seq[i].rid) \o Concat(seq, i + 1)
+RECURSIVE FlatSends(_, _)
+FlatSends(S, i) == IF i > Len(S) THEN <<>> ELSE S[i] \o FlatSends(S, i + 1)
+
+(* ---- byte segments ---- *)
+Seg(r, k, n) == <<r, k, n>>
+RECURSIVE BLen(_)
+BLen(b) == IF b = <<>> THEN 0 ELSE b[1][3] + BLen(Tail(b))
+RECURSIVE Take(_, _)
+Take(b, m) == IF m <= 0 \/ b = <<>> THEN <<>>
+              ELSE IF b[1][3] <= m THEN <<b[1]>> \o Take(Tail(b), m - b[1][3])
+              ELSE <<Seg(b[1][1], b[1][2], m)>>
+RECURSIVE Drop(_, _)
+Drop(b, m) == IF m <= 0 \/ b = <<>> THEN b
+              ELSE IF b[1][3] <= m THEN Drop(Tail(b), m - b[1][3])
+              ELSE <<Seg(b[1][1], b[1][2], b[1][3] - m)>> \o Tail(b)
+RECURSIVE Join(_, _)
+Join(w, s) == IF s = <<>> THEN w
+              ELSE IF w # <<>> /\ w[Len(w)][1] = s[1][1] /\ w[Len(w)][2] = s[1][2]
+                   THEN Join([w EXCEPT ![Len(w)] = Seg(@[1], @[2], @[3] + s[1][3])], Tail(s))
+                   ELSE Join(Append(w, s[1]), Tail(s))
+(* w is a byte prefix of p (p has one segment per write) *)
+IsBytePrefix(w, p) == /\ Len(w) <= Len(p)
+                      /\ \A i \in 1..Len(w) : /\ w[i][1] = p[i][1] /\ w[i][2] = p[i][2]
+                                              /\ IF i < Len(w) THEN w[i][3] = p[i][3] ELSE w[i][3] <= p[i][3]
 IsPrefix(a, b) == Len(a) <= Len(b) /\ SubSeq(b, 1, Len(a)) = a
 Finals(w) == SelectSeq(w, LAMBDA u : u[2] # 0)
-Expecting == {p.rid : p \in {FlatSends(1)[i] : i \in 1..Len(FlatSends(1))} \cap {q \in {FlatSends(1)[i] : i \in 1..Len(FlatSends(1))} : q.what = "head"}}
 
 '''
 
 ALG = r'''(* --algorithm Channel {
 variables
+  cfg \in CfgSet,
   (* ---- the channel object ---- *)
   requests = <<>>, willClose = FALSE, cwf = FALSE, connected = FALSE, total = 0,
-  obufs = << <<>> >>,          \* outbufs: a FIFO of buffers, each a sequence of units not yet skipped
-  rotate = FALSE,              \* current_outbuf_count has reached the mark: the next write starts a new buffer
+  obufs = << <<>> >>,          \* outbufs: a FIFO of buffers, each a sequence of segments not yet sent
+  ostr = <<TRUE>>,             \* per buffer: still a plain byte string (OverflowableBuffer before its first partial skip):
+                               \* get(n) then returns everything, whatever n
+  cnt = 0,                     \* current_outbuf_count: bytes appended to the last buffer; at the mark the next write starts a new buffer
   cur = 0, curExpect = FALSE,  \* self.request: a partially received request that expects 100-continue
   sentContinue = FALSE,
   reqLock = "free", outOwner = "free", outCount = 0,
+  waiters = <<>>,              \* threads in outbuf_lock.wait(), FIFO
   (* ---- server / kernel ---- *)
   trig = 0, taskq = 0, accepted = FALSE, inMap = FALSE, sockOpen = FALSE,
-  backlog = FALSE, inbox = <<>>, room = RoomInit, wire = <<>>, nclose = 0, blocked = 0,
+  backlog = FALSE, inbox = <<>>, room = cfg.room, wire = <<>>, nclose = 0, blocked = 0,
+  peerGone = FALSE,            \* the client has gone away: sends fail with EPIPE, recv reports end of file
+  sfaults = cfg.sfaults,
   (* ---- history (not read by the modelled code) ---- *)
-  produced = <<>>, started = <<>>, running = 0, decided = FALSE, execAfterDecision = FALSE, tornBy = <<>>, crashed = {};
+  produced = <<>>, started = <<>>, running = 0, decided = FALSE, execAfterDecision = FALSE, tornBy = <<>>, crashed = {},
+  maxTotal = 0;
 
 define {
   Unlimited == -1
-  CanSend == room = Unlimited \/ room > 0
-  SockReadable == inbox # <<>>
+  Writes == cfg.writes
+  AllPieces == FlatSends(cfg.sends, 1)
+  (* requests in the order in which they become complete *)
+  ReqSeq == SelectSeq(AllPieces, LAMBDA p : p.what \in {"full", "body"})
+  Expecting == {AllPieces[i].rid : i \in {j \in 1..Len(AllPieces) : AllPieces[j].what = "head"}}
+  RespOf(r) == SelectSeq([k \in 1..Len(Writes[r]) |-> Seg(r, k, Writes[r][k])], LAMBDA x : x[3] > 0)
+  RECURSIVE Concat(_, _)
+  Concat(seq, i) == IF i > Len(seq) THEN <<>> ELSE RespOf(seq[i].rid) \o Concat(seq, i + 1)
+  \* (a scripted outcome pending for the next send makes the socket report writable, like a spurious readiness)
+  CanSend == room = Unlimited \/ room > 0 \/ peerGone \/ sfaults # <<>>
+  SockReadable == inbox # <<>> \/ peerGone
   (* C04: what reaches the client is what was produced, in that order, nothing twice, nothing dropped in between *)
-  WireIsPrefix == IsPrefix(wire, produced)
+  WireIsPrefix == IsBytePrefix(wire, produced)
   ResponsesInOrder == IsPrefix(Finals(produced), Concat(ReqSeq, 1))
   InOrderExactlyOnce == IsPrefix(started, [i \in 1..Len(ReqSeq) |-> ReqSeq[i].rid])
   OneAtATime == running <= 1
@@ -135,32 +246,40 @@ define {
        /\ produced[i][1] \in Expecting
        /\ \A j \in 1..Len(produced) : (j # i /\ produced[j][1] = produced[i][1]) => (j > i /\ produced[j][2] # 0)
        /\ \A j \in 1..(i - 1) : produced[j][1] # produced[i][1] =>
-             Cardinality({k \in 1..(i - 1) : produced[k][1] = produced[j][1] /\ produced[k][2] # 0}) = RespUnits
+             Cardinality({k \in 1..(i - 1) : produced[k][1] = produced[j][1] /\ produced[k][2] # 0}) = Len(RespOf(produced[j][1]))
+  (* C12: pending output never exceeds the mark by more than one write (plus the interim responses, which are
+     appended without asking) *)
+  WriteSizes == UNION {{Writes[r][k] : k \in 1..Len(Writes[r])} : r \in 1..Len(Writes)}
+  MaxW == IF WriteSizes = {} THEN 0 ELSE CHOOSE m \in WriteSizes : \A x \in WriteSizes : x <= m
+  BacklogBounded == maxTotal <= cfg.hwm + MaxW + Cardinality(Expecting) * cfg.interim
 }
 
 (* ------------------------------------------------------------------ client *)
-process (client = "cl")
+fair process (client = "cl")
 variables ci = 1, co = 1;
 {
 cl_connect: backlog := TRUE;
-cl_loop:    while (co <= Len(ClientOps)) {
-              if (ClientOps[co].op = "send") {
-cl_send:        inbox := Append(inbox, Sends[ci]); ci := ci + 1; co := co + 1;
-              } else if (ClientOps[co].op = "await100") {
-cl_await100:    await Cardinality({i \in 1..Len(wire) : wire[i][2] = 0}) >= ClientOps[co].n \/ (accepted /\ ~sockOpen);
+cl_loop:    while (co <= Len(cfg.ops)) {
+              if (cfg.ops[co].op = "send") {
+cl_send:        inbox := Append(inbox, cfg.sends[ci]); ci := ci + 1; co := co + 1;
+              } else if (cfg.ops[co].op = "await100") {
+cl_await100:    await Cardinality({i \in 1..Len(wire) : wire[i][2] = 0 /\ wire[i][3] = cfg.interim}) >= cfg.ops[co].n \/ (accepted /\ ~sockOpen);
                 co := co + 1;
+              } else if (cfg.ops[co].op = "close") {
+cl_close:       peerGone := TRUE; co := co + 1;
               } else {
-cl_read:        await blocked >= ClientOps[co].after \/ (accepted /\ ~sockOpen);
-                room := IF ClientOps[co].n < 0 \/ room = Unlimited THEN Unlimited ELSE room + ClientOps[co].n;
+cl_read:        await blocked >= cfg.ops[co].after \/ (accepted /\ ~sockOpen);
+                room := IF cfg.ops[co].n < 0 \/ room = Unlimited THEN Unlimited ELSE room + cfg.ops[co].n;
                 co := co + 1;
               };
             };
 }
 
 (* ------------------------------------------------------------------ I/O thread *)
-process (io = "io")
+fair process (io = "io")
 variables isr = FALSE, isw = FALSE, rdyT = FALSE, rdyR = FALSE, rdyW = FALSE, rdyL = FALSE,
-          data = <<>>, piece = NoReq, locked = FALSE, chunk = <<>>, sent = 0, tmp = 0, outlen = 0, ioflushed = FALSE;
+          data = <<>>, piece = NoReq, locked = FALSE, sent = 0, tmp = 0, outlen = 0, ioflushed = FALSE, ioexc = FALSE,
+          closeRet = "";
 {
 io_poll:
   while (TRUE) {
@@ -171,7 +290,7 @@ readable_rd_will_close:
 readable_rd_close_when_flushed:
       if (cwf) { goto writable_rd_total_outbufs_len; };
 readable_rd_requests:
-      if (Len(requests) > Lookahead) { goto writable_rd_total_outbufs_len; };
+      if (Len(requests) > cfg.lookahead) { goto writable_rd_total_outbufs_len; };
 readable_rd_total_outbufs_len:
       isr := (total = 0);
 writable_rd_total_outbufs_len:
@@ -198,13 +317,18 @@ io_trig:
     if (rdyT) {
 recv_drain_trigger:
       trig := 0;
+recv_drained_trigger:
+      skip;
     };
 io_read:
     if (rdyR /\ inMap) {
 handle_read_event_rd_connected:
       skip;
 recv_recv_sock:
-      data := Head(inbox); inbox := Tail(inbox);
+      if (inbox = <<>>) {
+        \* end of file: wasyncore.dispatcher.recv tears the channel down, then handle_read notes the disconnect
+        closeRet := "recv"; goto handle_close_acq_outbuf_lock;
+      } else { data := Head(inbox); inbox := Tail(inbox); };
 received_acq_requests_lock:
       await reqLock = "free"; reqLock := "io";
 received_rd_will_close:
@@ -229,6 +353,9 @@ received_rd_requests_2:
       };
 received_rel_requests_lock:
       reqLock := "free";
+      goto io_write;
+handle_read_wr_connected:
+      connected := FALSE;
     };
 io_write:
     if (rdyW /\ inMap) {
@@ -237,25 +364,31 @@ handle_write_event_rd_connected:
 handle_write_rd_requests:
       if (requests # <<>>) {
 handle_write_rd_total_outbufs_len:
-        if (total < SendBytes) {
+        if (total < cfg.sendbytes) {
 handle_write_rd_total_outbufs_len_3:
-          if (total <= HWM) { goto handle_write_rd_close_when_flushed; };
+          if (total <= cfg.hwm) { goto handle_write_rd_close_when_flushed; };
         };
       };
 flush_some_if_lockable_tryacq_outbuf_lock:
-      if (outOwner = "free") {
-        outOwner := "io"; outCount := 1; locked := TRUE;
-        @START_IO@
-      } else { locked := FALSE; };
+      ioflushed := FALSE; ioexc := FALSE;
+      if (outOwner = "free") { outOwner := "io"; outCount := 1; locked := TRUE; }
+      else { locked := FALSE; };
 io_fs:
       if (locked) {
-@FLUSH_IO@flush_some_if_lockable_rd_total_outbufs_len:
-        if (total <= HWM) {
+@FLUSH_IO@io_fs_after:
+        if (ioexc) { goto flush_some_if_lockable_rel_outbuf_lock; };
+flush_some_if_lockable_rd_total_outbufs_len:
+        if (total <= cfg.hwm) {
 flush_some_if_lockable_notify_outbuf_lock:
-          skip;
+          waiters := IF waiters = <<>> THEN waiters ELSE Tail(waiters);
         };
 flush_some_if_lockable_rel_outbuf_lock:
-        outCount := 0; outOwner := "free"; locked := FALSE;
+        outCount := outCount - 1; if (outCount = 0) { outOwner := "free"; }; locked := FALSE;
+io_fexc:
+        if (ioexc) {
+flush_exception_wr_will_close_io:
+          willClose := TRUE; decided := TRUE;
+        };
       };
 handle_write_rd_close_when_flushed:
       if (cwf) {
@@ -269,28 +402,41 @@ handle_write_wr_will_close:
       };
 handle_write_rd_will_close:
       if (willClose) {
+        closeRet := "hw";
 handle_close_acq_outbuf_lock:
-        await outOwner = "free"; outOwner := "io"; outCount := 1;
+        await outOwner \in {"free", "io"}; outOwner := "io"; outCount := outCount + 1;
 handle_close_wr_total_outbufs_len:
-        total := 0; obufs := << <<>> >>;
+        total := 0; obufs := << <<>> >>; ostr := <<TRUE>>;
 handle_close_wr_connected:
         connected := FALSE;
 handle_close_notify_outbuf_lock:
-        skip;
+        waiters := IF waiters = <<>> THEN waiters ELSE Tail(waiters);
 handle_close_rel_outbuf_lock:
-        outCount := 0; outOwner := "free";
+        outCount := outCount - 1; if (outCount = 0) { outOwner := "free"; };
 close_wr_connected:
         connected := FALSE; inMap := FALSE;
+io_skclose:
+        \* dispatcher.close(): the socket is closed once (self.socket is None afterwards)
+        if (sockOpen) {
 close_close_sock:
-        sockOpen := FALSE; nclose := nclose + 1; tornBy := Append(tornBy, "io");
+          sockOpen := FALSE; nclose := nclose + 1; tornBy := Append(tornBy, "io");
+        };
+io_close_ret:
+        \* handle_close was called from inside send (disconnect errno with do_close) or recv (end of file):
+        \* control returns there
+        if (closeRet = "io") { closeRet := ""; goto io_fs_after; }
+        else if (closeRet = "scio") { closeRet := ""; goto sc_after_io; }
+        else if (closeRet = "recv") { closeRet := ""; goto handle_read_wr_connected; }
+        else { closeRet := ""; };
       };
     };
   };
 }
 
 (* ------------------------------------------------------------------ workers *)
-process (worker \in Workers)
-variables req = NoReq, u = 1, wchunk = <<>>, wsent = 0, wflushed = FALSE, wtmp = 0, woutlen = 0, closeOnFinish = FALSE, aborted = FALSE, wrote = FALSE;
+fair process (worker \in Workers)
+variables req = NoReq, u = 1, wsent = 0, wflushed = FALSE, wexc = FALSE, wtmp = 0, woutlen = 0, closeOnFinish = FALSE,
+          aborted = FALSE, wrote = FALSE, saved = 0;
 {
 w_idle:
   while (TRUE) {
@@ -301,46 +447,55 @@ service_rd_requests:
 service_rd_connected:
     closeOnFinish := req.close; aborted := ~connected; u := 1; wrote := FALSE;
     if (aborted) { goto w_after; };
-execute_app_next:
+w_start:
+    \* the application is invoked
     started := Append(started, req.rid); running := running + 1;
     execAfterDecision := execAfterDecision \/ decided;
 w_units:
-    while (u <= RespUnits) {
+    while (u <= Len(Writes[req.rid])) {
+      if (Writes[req.rid][u] = 0) {
+execute_app_next:
+        u := u + 1; goto w_units;
+      };
 write_soon_rd_connected:
       if (~connected) { aborted := TRUE; goto w_after; };
 write_soon_acq_outbuf_lock:
       await outOwner \in {"free", self}; outOwner := self; outCount := outCount + 1;
-flush_outbufs_below_high_watermark_rd_total_outbufs_len:
-      skip;    \* total > HWM never holds in this slice (HWM is large)
-write_soon_rd_connected_2:
-      if (~connected) { outCount := outCount - 1; if (outCount = 0) { outOwner := "free"; }; aborted := TRUE; goto w_after; };
+@WATERMARK_W@write_soon_rd_connected_2:
+      if (~connected) {
+        \* raise ClientDisconnected: the with-block releases the lock
+write_soon_rel_outbuf_lock_a:
+        outCount := outCount - 1; if (outCount = 0) { outOwner := "free"; }; aborted := TRUE; goto w_after;
+      };
 write_soon_rd_total_outbufs_len:
-      if (rotate) { obufs := Append(obufs, <<Unit(req.rid, u)>>); rotate := FALSE; }
-      else { obufs[Len(obufs)] := Append(obufs[Len(obufs)], Unit(req.rid, u)); };
-      produced := Append(produced, Unit(req.rid, u));
+      if (cnt >= cfg.hwm) { obufs := Append(obufs, <<Seg(req.rid, u, Writes[req.rid][u])>>); ostr := Append(ostr, TRUE); cnt := Writes[req.rid][u]; }
+      else { obufs[Len(obufs)] := Append(obufs[Len(obufs)], Seg(req.rid, u, Writes[req.rid][u])); cnt := cnt + Writes[req.rid][u]; };
+      produced := Append(produced, Seg(req.rid, u, Writes[req.rid][u]));
       wtmp := total; wrote := TRUE;
 write_soon_wr_total_outbufs_len:
-      total := wtmp + 1;
+      total := wtmp + Writes[req.rid][u];
+      maxTotal := IF total > maxTotal THEN total ELSE maxTotal;
 write_soon_rd_total_outbufs_len_2:
-      wflushed := FALSE; wsent := 0;
-      if (total >= SendBytes) {
-        @START_W@
+      wflushed := FALSE; wsent := 0; wexc := FALSE;
+      if (total >= cfg.sendbytes) {
 @FLUSH_W@ws_after:
-        if (wflushed) {
+        if (wflushed /\ ~wexc) {
 write_soon_rd_total_outbufs_len_3:
-          if (total < SendBytes) { goto write_soon_rel_outbuf_lock; };
+          if (total < cfg.sendbytes) { goto write_soon_rel_outbuf_lock; };
         };
 physical_pull_pull_trigger_ws:
         trig := trig + 1;
+physical_pull_pulled_trigger_ws:
+        skip;
       };
 write_soon_rel_outbuf_lock:
       outCount := outCount - 1; if (outCount = 0) { outOwner := "free"; };
       u := u + 1;
     };
-execute_app_next_2:
+w_end:
     running := running - 1;
 w_after:
-    if (aborted /\ running > 0 /\ req.rid \in {started[i] : i \in 1..Len(started)} /\ u <= RespUnits) { running := running - 1; };
+    if (aborted /\ running > 0 /\ req.rid \in {started[i] : i \in 1..Len(started)} /\ u <= Len(Writes[req.rid])) { running := running - 1; };
     if (closeOnFinish \/ aborted) { goto service_acq_requests_lock_c; };
 service_rd_will_close:
     if (~willClose) { goto service_rd_requests_2; };
@@ -357,11 +512,10 @@ service_rel_requests_lock_c:
     goto service_rd_connected_4;
 service_rd_requests_2:
     if (Len(requests) > 1) {
-flush_outbufs_below_high_watermark_rd_total_outbufs_len_s:
-      skip;
-    };
+@WATERMARK_S@    };
 w_rotate:
-    rotate := rotate \/ wrote;
+    \* "forcing the next request to create a new outbuf"
+    if (cnt > 0) { cnt := cfg.hwm; };
 service_acq_requests_lock:
     await reqLock = "free"; reqLock := self;
 service_rd_requests_3:
@@ -380,6 +534,8 @@ service_rd_connected_4:
     if (connected) {
 physical_pull_pull_trigger_svc:
       trig := trig + 1;
+physical_pull_pulled_trigger_svc:
+      skip;
     };
   };
 }
@@ -395,6 +551,13 @@ NoLostWakeup == Quiescent => (inMap => (total = 0 /\ requests = <<>> /\ taskq = 
 AllAnswered == Quiescent => (~inMap \/ Finals(wire) = Concat(ReqSeq, 1))
 (* C19: a client that waits for the interim response is never left waiting *)
 ClientNotLeftWaiting == Quiescent => (pc["cl"] = "Done" \/ ~inMap)
+(* C12: at rest no producer is parked *)
+ProducerReleased == Quiescent => (waiters = <<>> /\ \A w \in Workers : pc[w] = "service_rd_requests")
+(* C05/C12: no livelock - with every thread scheduled fairly the system comes to rest (the scenarios are finite),
+   in particular the I/O loop does not spin on a channel it declines to flush while a producer waits for it *)
+ComesToRest == <>Quiescent
+(* C13: a connection whose client went away is torn down, once *)
+DeadConnectionClosed == Quiescent => (~(accepted /\ peerGone) \/ (~inMap /\ nclose = 1))
 =============================================================================
 '''
 
@@ -403,19 +566,20 @@ def main():
     alg = ALG
     alg = alg.replace("@SC_IO@", send_continue("io", IOV, '"io"'))
     alg = alg.replace("@SC_W@", send_continue("w", WV, "self"))
-    alg = alg.replace("@START_IO@", start_flush(IOV))
-    alg = alg.replace("@START_W@", start_flush(WV))
-    alg = alg.replace("@FLUSH_IO@", flush_loop("io", IOV, '"io"', "flush_some_if_lockable_rd_total_outbufs_len"))
-    alg = alg.replace("@FLUSH_W@", flush_loop("w", WV, "self", "ws_after"))
+    alg = alg.replace("@FLUSH_IO@", flush_loop("io", IOV, '"io"', "io_fs_after", "io"))
+    alg = alg.replace("@FLUSH_W@", flush_loop("w", WV, "self", "ws_after", "worker"))
+    alg = alg.replace("@WATERMARK_W@", watermark("w"))
+    alg = alg.replace("@WATERMARK_S@", watermark("s"))
     path = os.path.join(V, "spec", "Channel.tla")
+    if len(sys.argv) > 1:
+        path = sys.argv[1]
     open(path, "w").write(HEADER + alg)
     p = subprocess.run(["java", "-cp", "/opt/veriftools/tla/tla2tools.jar", "pcal.trans", "-nocfg", path], stdout=subprocess.PIPE, stderr=subprocess.STDOUT, text=True)
-    print(p.stdout[-400:])
-    for f in ("Channel.old",):
-        try:
-            os.remove(os.path.join(V, "spec", f))
-        except OSError:
-            pass
+    print(p.stdout[-600:])
+    try:
+        os.remove(path[:-4] + ".old")
+    except OSError:
+        pass
 
 
 if __name__ == "__main__":
